@@ -277,6 +277,42 @@ func Verif_C06_twice() {
 		verifapi.DeepEqual(mid["C"], s.knownConnectionCosts["C"]), verifapi.DeepEqual(mid["D"], s.knownConnectionCosts["D"])))
 }
 
+// Verif_C06_notice_then_stale: a suspected-duplicate notice of an origin (every field arbitrary) that
+// does not concern the run recorded for that origin (its SuspectedDuplicate differs from the recorded
+// epoch) is followed by an ordinary update of the same origin that is older than or equal to what had
+// been accepted before the notice: the late update still changes nothing and is not relayed - a notice
+// is no way to move the record backwards.
+func Verif_C06_notice_then_stale() {
+	v := verifC06Setup()
+	s := v.n.s
+	verifapi.Assume(verifapi.All(v.origin != "A", !v.seen, !v.bad, v.hadOld, v.ri.SuspectedDuplicate != 0, v.ri.SuspectedDuplicate != v.oldE))
+	s.handleRoutingUpdate(v.ri, v.recv)
+	verifapi.Quiesce()
+	_, _ = v.outputs()
+	mid := verifapi.DeepCopy(s.knownConnectionCosts)
+	e2, s2 := verifapi.Uint64(), verifapi.Uint64()
+	verifapi.Assume(verifapi.Any(e2 < v.oldE, verifapi.All(e2 == v.oldE, s2 <= v.oldS)))
+	conns := map[string]float64{}
+	for _, k := range []string{"A", "B", "C"} {
+		if k != v.origin {
+			c := verifapi.Float()
+			verifapi.Assume(c > 0)
+			verifapi.PutIf(conns, k, c, verifapi.Bool())
+		}
+	}
+	recv2 := []string{"B", "C"}[verifapi.Choose(2)]
+	late := &routingUpdate{NodeID: v.origin, UpdateID: "late", UpdateEpoch: e2, UpdateSequence: s2, Connections: conns, ForwardingNode: recv2}
+	s.handleRoutingUpdate(late, recv2)
+	verifapi.Quiesce()
+	toB, toC := v.outputs()
+	verifapi.Cover("late-update-after-notice")
+	verifapi.Assert("late-update-after-notice-not-relayed", len(toB)+len(toC) == 0)
+	verifapi.Assert("late-update-after-notice-keeps-picture", verifapi.All(
+		verifapi.DeepEqual(mid["A"], s.knownConnectionCosts["A"]), verifapi.DeepEqual(mid["B"], s.knownConnectionCosts["B"]),
+		verifapi.DeepEqual(mid["C"], s.knownConnectionCosts["C"]), verifapi.DeepEqual(mid["D"], s.knownConnectionCosts["D"])))
+	verifapi.Assert("late-update-after-notice-keeps-record", v.infoUnchanged())
+}
+
 // Verif_C06_concurrent_deliveries: two different updates of one origin (same epoch, sequences n and
 // n+1, different neighbour sets) are handled at the same time by two sessions (two goroutines, every
 // schedule within the pre-emption bound): whichever order they are processed in, the node ends up with
